@@ -127,6 +127,13 @@ func marshal(m *Message, field reflect.Value, fieldAVP *dict.AVP) (error, []*AVP
 	// log.Println(fieldAVP.Name, " begin ", field.Kind())
 	// defer log.Println(fieldAVP.Name, " end")
 
+	// AVP (and, through the pointer case below, *AVP) fields carry a
+	// ready-made AVP, whatever the dictionary type of the AVP is.
+	if fieldType == reflect.TypeOf(AVP{}) {
+		a := field.Interface().(AVP)
+		return nil, append(avps, &a)
+	}
+
 	var t reflect.Type
 	switch field.Kind() {
 	case reflect.Slice:
